@@ -33,6 +33,7 @@ BATCHES = {
     "S": (2, "none", ("u",), (0,)),              # smaller category set
     "M": (9, "some", ("u", "v"), (1, 0)),        # larger batch, split into several row groups
     "U": (3, "some", ("u", "v"), (0,)),          # uses label 'u' only (code 0)
+    "L": (12, "some", ("u", "v"), (0, 1)),       # long original: written as up to 12 row groups = 12 part files
 }
 CODECS = [None, "GZIP", "SNAPPY", "ZSTD", "LZ4", {"x": "GZIP", "_default": None}]
 RGOS = ["none", "int2", "half", "int1000"]
@@ -58,18 +59,76 @@ def c07_frames(spec):
     return out
 
 
+def c07_orig_offsets(spec, n):
+    """row_group_offsets of the ORIGINAL write: an explicit list (spec['orig_offsets']) or the rotating kind"""
+    off = spec.get("orig_offsets")
+    return [o for o in off if o < n] if off else c07_rgo(spec["rgos"][0], n)
+
+
+def c07_orig_row_groups(spec):
+    """row positions (in the original frame) held by each row group of an original written with EXPLICIT offsets,
+    in the order of the dataset's row-group list: chunk by chunk, inside a chunk one row group per partition key,
+    keys sorted.  Also -> the relative file name of each (format convention <k=v dirs>/part.<chunk>.parquet)."""
+    n = BATCHES[spec["batches"][0]][0]
+    off = c07_orig_offsets(spec, n)
+    f0 = base_frame(0, n, parts=2)
+    groups, names = [], []
+    for i, st in enumerate(off):
+        en = off[i + 1] if i + 1 < len(off) else n
+        if not spec["part"]:
+            groups.append(list(range(st, en)))
+            names.append("part.%d.parquet" % i)
+            continue
+        keys = sorted(set(tuple(f0[p].iloc[j] for p in spec["part"]) for j in range(st, en)))
+        for k in keys:
+            groups.append([j for j in range(st, en) if tuple(f0[p].iloc[j] for p in spec["part"]) == k])
+            if spec["scheme"] == "drill":
+                names.append("/".join(str(v) for v in k) + "/part.%d.parquet" % i)
+            else:
+                names.append("/".join("%s=%s" % (p, v) for p, v in zip(spec["part"], k)) + "/part.%d.parquet" % i)
+    return groups, names
+
+
+def c07_surviving(spec):
+    """-> (row positions of the original frame still in the dataset after the preparatory removals, in dataset
+    order; file names still holding them)"""
+    n = BATCHES[spec["batches"][0]][0]
+    if not spec.get("pre"):
+        return list(range(n)), None
+    groups, names = c07_orig_row_groups(spec)
+    for op in spec["pre"]:
+        assert op[0] == "remove"
+        gone = set(op[1])
+        groups = [g for i, g in enumerate(groups) if i not in gone]
+        names = [m for i, m in enumerate(names) if i not in gone]
+    return [j for g in groups for j in g], names
+
+
+def c07_part_numbers(path):
+    """part numbers of the data files below path, read from the DIRECTORY (not from fastparquet)"""
+    import re
+    nums = []
+    for _r, _d, fs in os.walk(path):
+        for fn in fs:
+            m = re.match(r"part\.(\d+)\.parquet$", fn)
+            if m:
+                nums.append(int(m.group(1)))
+    return sorted(nums)
+
+
 def c07_cat_conflict(spec):
     """Region of the known defect, computed from the input alone: after some step the dictionary of
     the LAST written row group gives another label (or none) to a code used by an earlier batch."""
     b = [BATCHES[l] for l in spec["batches"]]
     for k in range(1, len(b)):
-        nonempty = [j for j in range(k + 1) if b[j][0] > 0]
+        nonempty = [j for j in range(k + 1) if b[j][0] > 0 and (j > 0 or c07_surviving(spec)[0])]
         if not nonempty:
             continue
         last = b[nonempty[-1]][2]
         for j in nonempty[:-1]:
             n, _nulls, cats, use = b[j]
-            for code in sorted(set(use[i % len(use)] for i in range(n))):
+            rows = c07_surviving(spec)[0] if j == 0 else range(n)
+            for code in sorted(set(use[i % len(use)] for i in rows)):
                 if code >= len(last):
                     return "out-of-range"
                 if cats[code] != last[code]:
@@ -89,6 +148,8 @@ def c07_check_values(fp, path, spec, frames, upto, cat):
     """-> None or text.  cat=False: all columns but 'c' (read with a column selection, so a failure
     to materialise the categorical column cannot hide them); cat=True: column c (+ row id)."""
     exp = [c07_expected(f, spec) for f in frames[:upto + 1]]
+    if spec.get("pre"):
+        exp[0] = exp[0].iloc[c07_surviving(spec)[0]]
     allcols = list(exp[0].columns)
     cols = ["x", "c"] if cat else [c for c in allcols if c != "c"]
     pf = fp.ParquetFile(path)
@@ -156,7 +217,20 @@ def c07_run_history(fp, spec, root):
     res = {"values": None, "cat": None, "bytes": None}
     f0 = frames[0]
     fp.write(path, f0, file_scheme=spec["scheme"], partition_on=spec["part"],
-             compression=CODECS[spec["codecs"][0]], row_group_offsets=c07_rgo(spec["rgos"][0], len(f0)))
+             compression=CODECS[spec["codecs"][0]], row_group_offsets=c07_orig_offsets(spec, len(f0)))
+    for op in spec.get("pre") or []:
+        # preparatory step (not under contract here, C09's business): remove row groups, part names left as they are
+        pf = fp.ParquetFile(path)
+        pf.remove_row_groups([pf.row_groups[i] for i in op[1]])
+    if spec["scheme"] != "simple":
+        nums = c07_part_numbers(path)
+        res["_files_before"] = len(nums)
+        res["_hole"] = bool(nums) and len(set(nums)) < max(nums) + 1
+        names = c07_surviving(spec)[1]
+        if names is not None:
+            have = sorted(r for r in data_files(snapshot(path)))
+            if have != sorted(names):       # the state this history is about was not reached: said in the result, no failure
+                res["_state"] = f"after the preparatory removals the data files are {have}, expected {sorted(names)}"
 
     def guarded(fn, *a):
         try:
@@ -170,7 +244,7 @@ def c07_run_history(fp, spec, root):
             c07_append(fp, path, spec, frames[k], k)
         except Exception as e:
             msg = f"step {k}: append of a schema-compatible frame raised {type(e).__name__}: {str(e)[:200]}"
-            for a in res:
+            for a in ("values", "cat", "bytes"):
                 res[a] = res[a] or msg
             return res
         for aspect, fn, args in (("bytes", c07_check_bytes, (path, spec, before)),
@@ -229,6 +303,47 @@ def histories(tier, seed):
     return out
 
 
+# second family: the existing dataset has MANY part files (>= 11: numbers with two digits) and / or a part numbering
+# with HOLES (row groups removed with remove_row_groups, default sort_pnames=False) before the appends
+MANY_CONFIGS = [
+    ("hive", [], None, "write"),
+    ("hive", ["p"], None, "write"),
+    ("hive", ["p", "q"], None, "wrg"),
+    ("hive", [], "dt", "wrg"),
+    ("drill", [], None, "write"),
+    ("drill", ["p"], None, "wrg"),
+]
+# original letter, explicit offsets of the original write, removals (indices into the row-group list)
+MANY_STATES = [
+    ("A", [0, 2, 4], None), ("A", [0, 2, 4], [0]), ("A", [0, 2, 4], [1]), ("A", [0, 2, 4], [2]), ("A", [0, 2, 4], [0, 1]),
+    ("L", list(range(12)), None), ("L", list(range(12)), [0]), ("L", list(range(12)), [0, 1, 2]),
+    ("L", list(range(12)), [5]), ("L", list(range(12)), [9]), ("L", list(range(12)), [10]), ("L", list(range(12)), [11]),
+    ("L", list(range(11)), None), ("L", list(range(11)), [3, 9]),
+]
+MANY_APPENDS = ["A", "M", "N", "X", "E", "D", "AA", "MA", "AM", "NM", "EA"]
+
+
+def enumerate_many(tier):
+    specs = []
+    for ci, (scheme, part, idx, api) in enumerate(MANY_CONFIGS):
+        for si, (orig, offsets, removed) in enumerate(MANY_STATES):
+            for ai, apps in enumerate(MANY_APPENDS):
+                if tier == "quick" and len(apps) == 2 and (ci + si + ai) % 2:
+                    continue            # quick: every single append, half of the pairs
+                batches = orig + apps
+                steps = len(batches)
+                spec = {
+                    "scheme": scheme, "part": part, "idx": idx, "api": api, "batches": batches,
+                    "codecs": [(ci + si + ai + 2 * s) % len(CODECS) for s in range(steps)],
+                    "rgos": [RGOS[(ci + si + ai + s) % len(RGOS)] for s in range(steps)],
+                    "orig_offsets": offsets,
+                }
+                if removed is not None:
+                    spec["pre"] = [["remove", removed]]
+                specs.append(spec)
+    return specs
+
+
 def enumerate_specs(tier, seed):
     specs = []
     hs = histories(tier, seed)
@@ -251,11 +366,17 @@ def enumerate_specs(tier, seed):
                 "rgos": [RGOS[(ci + hi // 3 + s) % len(RGOS)] for s in range(steps)],
             }
             specs.append(spec)
-    return specs
+    return specs + enumerate_many(tier)
 
 
-def features_of(spec, aspect):
+def features_of(spec, aspect, res=None):
+    res = res or {}
+    pre = spec.get("pre")
     return {
+        "original_row_groups": len(spec["orig_offsets"]) if spec.get("orig_offsets") else "by_rgo",
+        "removed_before": ",".join(str(i) for op in pre for i in op[1]) if pre else "none",
+        "files_before": "n/a" if "_files_before" not in res else (">=11" if res["_files_before"] >= 11 else "<11"),
+        "part_numbering": "n/a" if "_hole" not in res else ("hole" if res["_hole"] else "dense"),
         "scheme": spec["scheme"], "partition_on": ",".join(spec["part"]), "index": spec["idx"] or "none",
         "api": spec["api"], "original": spec["batches"][0], "appends": spec["batches"][1:],
         "codecs": ",".join(str(c) for c in spec["codecs"]), "rgo": ",".join(spec["rgos"]),
@@ -306,9 +427,13 @@ def run_bounded(ctx):
     specs = enumerate_specs(ctx.tier, ctx.seed)
     results = pool_map(_worker, specs, chunksize=8)
     for spec, res in zip(specs, results):
+        if res.get("_state"):
+            ctx.note("c07: intended dataset state not reached, cases counted as trivial: " + res["_state"][:300])
         for aspect in ("bytes", "values", "cat"):
             nontrivial = any(BATCHES[l][0] > 0 for l in spec["batches"][1:]) or aspect == "bytes"
-            with Case(ctx, G, features_of(spec, aspect), snippet=snippet_of(spec, aspect), nontrivial=nontrivial,
+            if res.get("_state"):
+                nontrivial = False
+            with Case(ctx, G, features_of(spec, aspect, res), snippet=snippet_of(spec, aspect), nontrivial=nontrivial,
                       contract="after every append: read == concatenation of batches in order; old bytes [0,F) / "
                                "old data files unchanged") as c:
                 if res[aspect] is not None:
